@@ -172,3 +172,8 @@ mut("c18-sine-amplitude-range", "C18", "ic/_sine_waves_1d.py", "minval=self.ampl
 mut("c18-discontinuity-limit-range", "C18", "ic/_discontinuities.py", "lim_2 = jr.uniform(key_2, (), minval=0.0, maxval=self.domain_extent)", "lim_2 = jr.uniform(key_2, (), minval=1.0, maxval=self.domain_extent)", "limits not uniform over the domain (survey survivor)")
 mut("c18-blob-position-unscaled", "C18", "ic/_gaussian_blob.py", "minval=self.position_range[0] * self.domain_extent", "minval=self.position_range[0]", "position range not scaled by the domain extent")
 ben("c18-discontinuity-minmax-order", "C18", "ic/_discontinuities.py", "lower_limits.append(jnp.minimum(lim_1, lim_2))", "lower_limits.append(jnp.minimum(lim_2, lim_1))", "commuted minimum")
+
+# ------------------------------------------------------------------------------------------ seeded wave 5 lessons
+mut("c11-wave-guard-maximum", "C11", "stepper/_wave.py", "        k_guard = jnp.where(self.wavenumber_norm == 0, 1.0, self.wavenumber_norm)\n        w_hat", "        k_guard = jnp.maximum(self.wavenumber_norm, 1.0)\n        w_hat", "zero guard that also clips scaled wavenumbers below 1 (L > 2 pi) (seeded S32)")
+ben("c01-wave-guard-greater", "C01", "stepper/_wave.py", "jnp.where(self.wavenumber_norm == 0, 1.0, self.wavenumber_norm)", "jnp.where(self.wavenumber_norm > 0, self.wavenumber_norm, 1.0)", "the norm is non-negative: > 0 is the complement of == 0", count=2)
+ben("c11-wave-guard-greater", "C11", "stepper/_wave.py", "jnp.where(self.wavenumber_norm == 0, 1.0, self.wavenumber_norm)", "jnp.where(self.wavenumber_norm > 0, self.wavenumber_norm, 1.0)", "the norm is non-negative: > 0 is the complement of == 0", count=2)
